@@ -1,2 +1,80 @@
-(* C08 — property theorems (being built). *)
-From Klog Require Import Base.Prelude Model.Lines Model.Parser.
+(* C08 — reading a file loses nothing: blocks and lines reproduce the text exactly.
+   Property theorems only; each is closed by [exact <lemma>] and followed by Print Assumptions.
+   All statements hold for EVERY byte string (no validity or UTF-8 hypothesis).
+   Not here: noop_reconcile_identity (belongs to the reconciler model). *)
+From Klog Require Import Base.Prelude Base.Utf8 Model.Lines Proofs.Lines.
+Open Scope nat_scope.
+
+(* 1. splitting a text into lines and gluing text ++ line ending back together is the identity
+      (LF, CRLF, lone CR inside a line, missing final newline, any bytes) *)
+Theorem C08_lines_lossless : forall s : bytes, text_of_lines (lines_of s) = s.
+Proof. exact lines_lossless. Qed.
+Print Assumptions C08_lines_lossless.
+
+(* 2. the blocks contain every line exactly once and in order, as soon as one line is significant *)
+Theorem C08_blocks_lossless : forall ls : list line,
+  (exists l, In l ls /\ is_blank l = false) -> flatten_blocks (blocks_of_lines ls) = ls.
+Proof. exact blocks_lossless. Qed.
+Print Assumptions C08_blocks_lossless.
+
+(* ... hence the blocks reproduce the text byte for byte *)
+Theorem C08_text_lossless : forall s : bytes,
+  (exists l, In l (lines_of s) /\ is_blank l = false) ->
+  text_of_lines (flatten_blocks (blocks_of s)) = s.
+Proof. exact text_lossless. Qed.
+Print Assumptions C08_text_lossless.
+
+(* without the hypothesis: the blocks are a prefix of the lines and what is missing is blank
+   (this only happens when ALL lines are blank, see C08_no_blocks_iff_all_blank) *)
+Theorem C08_blocks_prefix : forall ls : list line,
+  exists trail, ls = flatten_blocks (blocks_of_lines ls) ++ trail /\ Forall (fun l => is_blank l = true) trail.
+Proof. exact blocks_prefix. Qed.
+Print Assumptions C08_blocks_prefix.
+
+(* 3. only a text consisting solely of blank lines yields no blocks *)
+Theorem C08_no_blocks_iff_all_blank : forall ls : list line,
+  blocks_of_lines ls = [] <-> Forall (fun l => is_blank l = true) ls.
+Proof. exact no_blocks_iff_all_blank. Qed.
+Print Assumptions C08_no_blocks_iff_all_blank.
+
+(* 4. block line numbers: the first block starts at line 0, every next block where the previous one ended *)
+Theorem C08_line_numbers_consecutive : forall ls : list line,
+  (forall b rest, blocks_of_lines ls = b :: rest -> b_preceding b = 0) /\
+  (forall pre b1 b2 post, blocks_of_lines ls = pre ++ b1 :: b2 :: post ->
+     b_preceding b2 = b_preceding b1 + length (b_lines b1)).
+Proof. exact line_numbers_consecutive. Qed.
+Print Assumptions C08_line_numbers_consecutive.
+
+(* closed form: a block's number of preceding lines is the number of lines in the blocks before it,
+   and line i of the block is line b_preceding + i of the text *)
+Theorem C08_block_lines_located : forall (ls : list line) pre b post i l,
+  blocks_of_lines ls = pre ++ b :: post ->
+  b_preceding b = length (flatten_blocks pre) /\
+  (nth_error (b_lines b) i = Some l -> nth_error ls (overall_line_index b i) = Some l).
+Proof. exact block_lines_located_full. Qed.
+Print Assumptions C08_block_lines_located.
+
+(* 5. every block is blank* significant+ blank*: exactly one maximal run of significant lines, and
+      Block.SignificantLines returns that run with the two blank counts *)
+Theorem C08_block_shape : forall (ls : list line) (b : block), In b (blocks_of_lines ls) ->
+  exists head sig tail,
+    significant_lines b = (sig, length head, length tail) /\ sig <> [] /\
+    b_lines b = head ++ sig ++ tail /\
+    Forall (fun l => is_blank l = true) head /\
+    Forall (fun l => is_blank l = false) sig /\
+    Forall (fun l => is_blank l = true) tail.
+Proof. exact block_shape. Qed.
+Print Assumptions C08_block_shape.
+
+(* non-vacuity: example_text = " \r\n2020-01-01\r\na\rb\n\t\n\n2020-01-02\n    1h \xff" (CRLF and LF mixed, a lone
+   CR inside a line, blank runs, invalid UTF-8, no final newline) has significant lines, 7 lines and 2 blocks,
+   the second one starting at line 5 *)
+Example C08_nonvacuous :
+  (exists l, In l (lines_of example_text) /\ is_blank l = false) /\
+  length (lines_of example_text) = 7 /\
+  map b_preceding (blocks_of example_text) = [0; 5] /\
+  map l_ending (lines_of example_text) = [[13;10]; [13;10]; [10]; [10]; [10]; [10]; []]%N.
+Proof.
+  split; [|vm_compute; repeat split].
+  exists {| l_text := b!"2020-01-01"; l_ending := [13;10]%N |}. split; [vm_compute; tauto|reflexivity].
+Qed.
